@@ -502,6 +502,8 @@ func repoGarbageCollect(repo Repo, conf config.Config, index types.Index, locked
 			}
 		} else {
 			// unknown media type listed in an index, treat it as a blob
+			// the same digest may also be listed as a manifest, this entry does not stand for its config and layers
+			delete(walked, d.Digest)
 			errClose := br.Close()
 			if errClose != nil {
 				continue
